@@ -561,6 +561,39 @@ def rule_version_range(ctx):
     spec_rows(ctx, R, TLSCONN + "_clientGetServerHello", rows)
 
 
+def rule_keysize_measure(ctx):
+    """KEYSIZE: the number the key-size policy compares (len(publicKey)) is the exact bit length of the
+    modulus / prime, also for sizes that are not a multiple of 8: a 2047-bit key must not count as 2048."""
+    from ..condeval import ev, Unknown
+    from .common import size_primitives
+    R = "C03.KEYSIZE"
+    prims = size_primitives(ctx)
+    n = 0
+    for q, attr in (("utils.rsakey:RSAKey.__len__", "self.n"), ("utils.python_dsakey:Python_DSAKey.__len__", "self.p")):
+        if not ctx.index.has_func(q):
+            continue
+        fi = ctx.index.func(q)
+        rets = [x for x in own_nodes(fi.node) if isinstance(x, ast.Return) and x.value is not None]
+        if len(rets) != 1:
+            raise AnalysisError("%s: %s does not have one return" % (R, q))
+        bad = None
+        for bits in (1023, 1024, 2047, 2048, 2049, 3):
+            N = (1 << (bits - 1)) | 1
+            try:
+                got = ev(rets[0].value, {attr: N, "__calls__": prims, "__index__": ctx.index, "__fn__": fi.node})
+            except (Unknown, TypeError, AttributeError) as e:
+                raise AnalysisError("%s: cannot evaluate `%s`: %s" % (R, norm(rets[0]), e))
+            if got != bits:
+                bad = "a %d-bit value gives %r" % (bits, got)
+                break
+        n += 1
+        ctx.check(R, bad is None, fi.qname, rets[0], "len(key) must be the exact bit length the minKeySize / maxKeySize "
+                  "policy is stated in: %s (`%s`)" % (bad, norm(rets[0])), fi.loc(rets[0]),
+                  what="%s is the exact bit length" % fi.short)
+    if n < 1:
+        raise AnalysisError("%s: RSAKey.__len__ not found" % R)
+
+
 def rule_dh_group(ctx):
     """DH-GROUP: the FFDHE parameters used are those of the group that was selected: every lookup in
     the RFC 7919 table is keyed by the group's id alone (id - 256, the table's order), whatever the
@@ -619,6 +652,7 @@ RULES = [
     ("C03.POLICY", "quick", rule_policy_rows),
     ("C03.VERSION", "quick", rule_version_range),
     ("C03.DH-GROUP", "quick", rule_dh_group),
+    ("C03.KEYSIZE", "quick", rule_keysize_measure),
     ("C03.SH-GATES", "quick", rule_sh_gates),
     ("C03.RESUME-POLICY", "quick", rule_resume_policy),
     ("C03.SRV-PICK", "quick", rule_srv_pick),
